@@ -145,6 +145,8 @@ def run(ctx):
     for progs in kpairs:
         for q_scaled, g_empty in ((False, True), (True, False)) if quick else ((False, True), (True, False), (False, False), (True, True)):
             kjobs.append((progs, q_scaled, g_empty, 500 if quick else 30000))
+        if any("precompute" in op for prog in progs for op in prog):
+            kjobs.append((progs, False, False, 500 if quick else 30000, True))       # key built from an order-less point
     klogs = []
     kgroups = [[] for _ in range(8)]
     khit = 0
@@ -156,8 +158,9 @@ def run(ctx):
             kgroups[(len(klogs) + li) % 8].extend(lg)      # whole logs only: each starts with a reset event
         klogs.append(1)
         for pr in problems:
-            ctx.violation("%s [shared VerifyingKey, point initially %s, generator table %s; programs %s; schedule %s]"
-                          % (pr["what"], "scaled" if job[1] else "unscaled", "empty" if job[2] else "full", job[0], pr["schedule"]),
+            ctx.violation("%s [shared VerifyingKey%s, point initially %s, generator table %s; programs %s; schedule %s]"
+                          % (pr["what"], " built from an order-less point" if len(job) > 4 else "", "scaled" if job[1] else "unscaled",
+                             "empty" if job[2] else "full", job[0], pr["schedule"]),
                           {"programs": job[0], "point_scaled": job[1], "generator_table_empty": job[2], "schedule": pr["schedule"],
                            "what": pr["what"]})
     ctx.extra["key_operation_combinations"] = {"combinations": len(kjobs), "hit_cap": khit}
